@@ -202,6 +202,31 @@ class reading_through:
         return False
 
 
+def returned_on(path, e):
+    """description of the value `e` yields on `path`: `if`s follow the branch the path took and blocks yield their tail (their statements are
+    effects, which the path records as events of their own) - so `return if c { f(); A } else { g(); B }` reads A / B like two plain returns"""
+    taken = {}
+    for ev in path.ev:
+        if ev[0] == "branch" and len(ev) > 3 and isinstance(ev[3], Ref) and isinstance(ev[3].n, dict) and ev[3].n.get("k") == "if":
+            node = ev[3].n
+            _, neg = split_not(desc(node["c"]))
+            taken[id(node)] = ev[2] if not neg else (not ev[2])
+    while isinstance(e, dict):
+        k = e.get("k")
+        if k in ("ref", "deref", "coerce", "rawref", "cast", "scope", "use"):
+            nxt = e.get("e")
+        elif k == "block" and e.get("e") is not None:
+            nxt = e["e"]
+        elif k == "if" and id(e) in taken:
+            nxt = e["t"] if taken[id(e)] else e.get("e")
+        else:
+            break
+        if not isinstance(nxt, dict):
+            break
+        e = nxt
+    return desc_on(path, e)
+
+
 def value_of(root):
     """the expression a body evaluates to when its statements are only `let`s that desc() reads through (use inside reading_through)"""
     e = root
@@ -762,7 +787,8 @@ class Enum:
         if k == "continue":
             return [P((), "cont")]
         if k == "return":
-            return [P(p.ev, "ret" if p.out == "val" else p.out, desc(e.get("e")) if e.get("e") is not None else "()") for p in self.paths(e.get("e"))]
+            # `return if c { a } else { b }`: the value returned on a path is the branch that path took
+            return [P(p.ev, "ret" if p.out == "val" else p.out, returned_on(p, e.get("e")) if e.get("e") is not None else "()") for p in self.paths(e.get("e"))]
         if k == "yield":
             return self.paths(e.get("e"))
         if k == "let":
